@@ -29,10 +29,17 @@ struct TaskShm {
     uint32_t exp_sig[VS_MAXP];
 };
 struct Counters { uint64_t executions, steps, contended, parked, new_states, new_outcomes, max_points, max_threads; };
+// Work donated by a busy worker: the untried alternatives at one level of its current choice vector (the shallowest level it could still
+// backtrack to).  The worker raises its own floor above that level and carries on; the coordinator turns every alternative into a subtree task.
+struct Donation { int level, nalts; uint8_t alts[256]; uint8_t choice[VS_MAXP], nalt[VS_MAXP]; uint32_t sig[VS_MAXP]; };
 struct WorkerShm {
     TaskShm task;
     Counters cnt;
     volatile int cancel;
+    volatile int split_request;      // coordinator -> worker: other workers are idle, donate part of your subtree
+    volatile int donation_pending;   // worker -> coordinator: `donation` is filled in
+    volatile int cur_floor;          // the level below which this worker will not backtrack (task floor, raised by donations)
+    Donation donation;
     volatile int race_seen;
     char race_msg[512];
     vs_slot slot;
@@ -191,11 +198,34 @@ static void worker_main(int k, int cmdfd, int donefd) {
         pre.choice.assign(t.prefix, t.prefix + t.prefix_len);
         pre.nalt.assign(t.exp_nalt, t.exp_nalt + t.exp_len);
         pre.sig.assign(t.exp_sig, t.exp_sig + t.exp_len);
+        int floor = t.floor;
+        w.cur_floor = floor;
         for (;;) {
             run_execution(w, p, pre);
             if (t.mode == MODE_SINGLE || w.cancel) break;
+            if (w.split_request && !w.donation_pending) {
+                // donate the untried alternatives of the shallowest level that still has some
+                const vs_record &r = w.slot.rec;
+                int cum = 0;
+                for (int j = 0; j < floor && j < r.n; j++) cum += alt_cost(r.flags[j], r.nalt[j], r.choice[j]);
+                for (int i = floor; i < r.n; i++) {
+                    Donation &d = w.donation; d.nalts = 0;
+                    for (int alt = r.choice[i] + 1; alt < r.nalt[i]; alt++) if (cum + alt_cost(r.flags[i], r.nalt[i], alt) <= t.bound) d.alts[d.nalts++] = (uint8_t)alt;
+                    if (d.nalts) {
+                        d.level = i;
+                        memcpy(d.choice, r.choice, i); memcpy(d.nalt, r.nalt, i + 1); memcpy(d.sig, r.sig, (i + 1) * sizeof(uint32_t));
+                        __atomic_store_n(&w.donation_pending, 1, __ATOMIC_SEQ_CST);     // first the gift, then the raised floor: dying in between duplicates work, never loses it
+                        floor = i + 1;
+                        __atomic_store_n(&w.cur_floor, floor, __ATOMIC_SEQ_CST);
+                        char s = 's';
+                        if (write(donefd, &s, 1) != 1) _exit(0);
+                        break;
+                    }
+                    cum += alt_cost(r.flags[i], r.nalt[i], r.choice[i]);
+                }
+            }
             Prefix nxt;
-            if (!next_prefix(w.slot.rec, t.floor, t.bound, nxt)) break;
+            if (!next_prefix(w.slot.rec, floor, t.bound, nxt)) break;
             // Sanitizer runtimes keep a record of every thread ever created: a worker retires after a bounded number of executions;
             // the coordinator continues its subtree in a fresh process (exit code 77 + outcome OK = "recycle", not a failure).
             if (w.cnt.executions >= g_recycle_after) _exit(77);
@@ -231,7 +261,7 @@ static void spawn_worker(int k) {
     int cmd[2], done[2];
     if (pipe(cmd) || pipe(done)) { perror("pipe"); exit(2); }
     memset(&g_w[k].cnt, 0, sizeof(Counters));
-    g_w[k].cancel = 0;
+    g_w[k].cancel = 0; g_w[k].split_request = 0; g_w[k].donation_pending = 0;
     pid_t pid = fork();
     if (pid < 0) { perror("fork"); exit(2); }
     if (pid == 0) {
@@ -282,7 +312,7 @@ static void send_task(int k, const Task &t) {
     memcpy(s.prefix, t.pre.choice.data(), t.pre.choice.size());
     memcpy(s.exp_nalt, t.pre.nalt.data(), s.exp_len);
     memcpy(s.exp_sig, t.pre.sig.data(), s.exp_len * sizeof(uint32_t));
-    g_w[k].cancel = 0;
+    g_w[k].cancel = 0; g_w[k].split_request = 0; g_w[k].cur_floor = t.floor;
     w.task = t; w.busy = true; w.last_hb = g_w[k].slot.heartbeat; w.last_hb_t = now_s();
     char c = 'g';
     if (write(w.cmdfd, &c, 1) != 1) { perror("write cmd"); }
@@ -414,10 +444,28 @@ static bool explore(RunState &rs, int prog, int bound, int max_violations) {
     bool stop = false; int found = 0;
     auto ndev = [](const Prefix &pr) { int d = 0; for (auto c : pr.choice) d += c != 0; return d; };
 
+    std::map<std::string, int> hang_retries;
+    uint64_t donations = 0;
+    auto take_donation = [&](int k) {
+        WorkerShm &sh = g_w[k];
+        if (!__atomic_load_n(&sh.donation_pending, __ATOMIC_SEQ_CST)) return;
+        const Donation &d = sh.donation;
+        if (!stop) for (int a = 0; a < d.nalts; a++) {
+            Task c; c.prog = prog; c.bound = bound; c.mode = MODE_SUBTREE; c.floor = d.level + 1;
+            c.pre.choice.assign(d.choice, d.choice + d.level); c.pre.choice.push_back(d.alts[a]);
+            c.pre.nalt.assign(d.nalt, d.nalt + d.level + 1); c.pre.sig.assign(d.sig, d.sig + d.level + 1);
+            tasks.push_back(std::move(c));
+        }
+        donations++;
+        __atomic_store_n(&sh.donation_pending, 0, __ATOMIC_SEQ_CST);
+    };
+
     auto handle_death = [&](int k, int st) {
         Worker &w = g_workers[k];
         WorkerShm &sh = g_w[k];
         absorb(rs, k, prog);
+        take_donation(k);
+        w.task.floor = std::max(w.task.floor, (int)sh.cur_floor);
         if (WIFEXITED(st) && WEXITSTATUS(st) == 77 && sh.slot.outcome == VS_OUT_OK) {      // a retired worker: continue its subtree elsewhere
             Task t = w.task; Prefix nxt;
             bool more = t.mode == MODE_SUBTREE && next_prefix(sh.slot.rec, t.floor, t.bound, nxt);
@@ -473,13 +521,19 @@ static bool explore(RunState &rs, int prog, int bound, int max_violations) {
             send_task(k, t); busy++;
         }
         if (busy == 0) break;
+        {   // idle workers and nothing queued: ask the busy ones to donate; enough queued: stop asking
+            bool want = !stop && tasks.empty() && busy < g_jobs;
+            for (int k = 0; k < g_jobs; k++) if (g_workers[k].busy && g_workers[k].task.mode == MODE_SUBTREE) g_w[k].split_request = want ? 1 : 0;
+        }
         std::vector<pollfd> pf; std::vector<int> idx;
         for (int k = 0; k < g_jobs; k++) if (g_workers[k].busy) { pf.push_back({g_workers[k].donefd, POLLIN, 0}); idx.push_back(k); }
-        poll(pf.data(), pf.size(), 100);
+        poll(pf.data(), pf.size(), 20);
         for (size_t i = 0; i < pf.size(); i++) {
             int k = idx[i]; Worker &w = g_workers[k];
             if (pf[i].revents & POLLIN) {
                 char c; if (read(w.donefd, &c, 1) == 1) {
+                    if (c == 's') { take_donation(k); continue; }
+                    take_donation(k);
                     w.busy = false;
                     absorb(rs, k, prog);
                     const vs_record &r = g_w[k].slot.rec;
@@ -519,10 +573,16 @@ static bool explore(RunState &rs, int prog, int bound, int max_violations) {
                     const vs_record &rr = g_w[k].slot.rec;
                     char b[256]; snprintf(b, sizeof b, "%s bound=%d schedule=%s: no scheduling step for %.0f s (blocking that the scheduler does not model)", p.name.c_str(), bound,
                                           sched_str(rr.choice, rr.n).c_str(), g_hang_limit);
-                    rs.inconclusive.push_back(b);
                     absorb(rs, k, prog);
-                    kill_worker(k); spawn_worker(k);
-                    stop = true;
+                    Task t = w.task; t.floor = std::max(t.floor, (int)g_w[k].cur_floor);
+                    Prefix cur; cur.choice.assign(rr.choice, rr.choice + rr.n); cur.nalt.assign(rr.nalt, rr.nalt + rr.n); cur.sig.assign(rr.sig, rr.sig + rr.n);
+                    kill_worker(k); take_donation(k); spawn_worker(k);
+                    // a deterministic schedule is re-run once in a fresh process before it is called a hang (the explorer always extends a prefix with default choices,
+                    // so "the choices recorded so far" identify the execution that was in progress)
+                    if (++hang_retries[sched_str(rr.choice, rr.n)] >= 2) { rs.inconclusive.push_back(b); stop = true; }
+                    else if (t.mode == MODE_SINGLE) tasks.push_front(t);
+                    else if ((int)cur.choice.size() < t.floor) tasks.push_front(w.task);      // stalled before its prefix was replayed: the position in the subtree is unknown, redo the whole task (duplicates, never gaps)
+                    else { Task c{prog, bound, MODE_SUBTREE, t.floor, std::move(cur)}; tasks.push_front(std::move(c)); }
                 }
             }
         }
